@@ -1,4 +1,105 @@
-From AK Require Import Base.Prelude Bytes.FabHeaderProofs.
-Theorem C01_stub : forall z, Text.py_int (Text.str_of_Z z) = Some z.
-Proof. exact py_int_str_of_Z. Qed.
-Print Assumptions C01_stub.
+(* C01 - box data read through the indexing interface is exactly what is on
+   disk.  Statements only; every proof is [exact lemma]. *)
+From AK Require Import Base.Prelude Bytes.Text Bytes.FabHeader Bytes.FabHeaderProofs
+  Bytes.BinFile Reader.Select Reader.BoxRead Reader.Level Reader.ReadSpec
+  Reader.ReadProofs Reader.LayoutProofs Reader.GetItemProofs.
+
+(* The FAB header codec the whole byte-level model rests on. *)
+Theorem C01_header_roundtrip : forall (lo hi : list Z) (nc : Z),
+  lo <> [] -> hi <> [] ->
+  parse_hdr (print_hdr lo hi nc) = Some {| h_lo := lo; h_hi := hi; h_nc := nc |}.
+Proof. exact parse_print_hdr. Qed.
+Print Assumptions C01_header_roundtrip.
+
+Theorem C01_header_line : forall (lo hi : list Z) (nc : Z) (r : bytes),
+  take_line (print_hdr lo hi nc ++ r) = print_hdr lo hi nc.
+Proof. exact take_line_print_hdr. Qed.
+Print Assumptions C01_header_line.
+
+(* Reading any honoured field selection of a FAB stored anywhere in any file
+   (arbitrary bytes before and after it) at its byte offset returns exactly
+   the stored bytes of the selected components, shaped as specified. *)
+Theorem C01_read_box : forall pre fb post a r,
+  fab_ok fb = true ->
+  spec_read fb a = Some r ->
+  read_box (pre ++ encode_fab fb ++ post) (blen pre) a = Some r.
+Proof. exact read_box_spec. Qed.
+Print Assumptions C01_read_box.
+
+(* The level header's (file, offset) of box b points at the FAB of box b. *)
+Theorem C01_offset_table : forall lv b c,
+  wf_level lv = true -> (b < length (lv_fabs lv))%nat ->
+  locate lv (lv_files lv) b = Some c ->
+  exists pre post,
+    lookup (fst c) (lv_disk lv) = Some (pre ++ encode_fab (nth b (lv_fabs lv) dummy_fab) ++ post)
+    /\ blen pre = snd c.
+Proof. exact locate_spec. Qed.
+Print Assumptions C01_offset_table.
+
+(* Every selection the field selector accepts is honoured on every box. *)
+Theorem C01_selector_valid : forall fields u a lv,
+  norm_farg fields u = Some a -> wf_level lv = true ->
+  (forall fb, In fb (lv_fabs lv) -> fab_nc fb = blen fields) ->
+  forall fb, In fb (lv_fabs lv) -> exists r, spec_read fb a = Some r.
+Proof. exact norm_farg_valid_level. Qed.
+Print Assumptions C01_selector_valid.
+
+(* Main statement: on every well-formed level (any number of boxes, any
+   box->file distribution, any on-disk order), for every selection the
+   selector accepts and every box selector form, the indexing interface
+   returns exactly the specification: the stored data of the selected boxes,
+   or an error - never anything else. *)
+Theorem C01_getitem : forall lv cells a s,
+  wf_level lv = true -> lv_cells lv = Some cells ->
+  (forall fb, In fb (lv_fabs lv) -> exists r, spec_read fb a = Some r) ->
+  stream_getitem (lv_disk lv) cells a s = spec_getitem lv a s.
+Proof. exact stream_getitem_spec. Qed.
+Print Assumptions C01_getitem.
+
+(* ... for each selected box in the order requested. *)
+Theorem C01_order : forall lv a s idxs rs,
+  select_boxes (blen (lv_fabs lv)) s = Some idxs ->
+  spec_getitem lv a s = Some rs ->
+  length rs = length idxs /\
+  forall k i, nth_error idxs k = Some i ->
+              exists r, nth_error rs k = Some r /\ spec_level_read lv a i = Some r.
+Proof. exact spec_getitem_order. Qed.
+Print Assumptions C01_order.
+
+(* Refused selections. *)
+Theorem C01_refuse_index : forall fields i,
+  (blen fields <= i \/ i < - blen fields) -> norm_farg fields (UInt i) = None.
+Proof. exact norm_farg_bad_int. Qed.
+Print Assumptions C01_refuse_index.
+
+Theorem C01_refuse_name : forall fields s,
+  ~ In s fields -> norm_farg fields (UName s) = None.
+Proof. exact norm_farg_bad_name. Qed.
+Print Assumptions C01_refuse_name.
+
+Theorem C01_refuse_backward_slice : forall fields a b st,
+  st <= 0 -> norm_farg fields (USlice a b (Some st)) = None.
+Proof. exact norm_farg_backward_slice. Qed.
+Print Assumptions C01_refuse_backward_slice.
+
+Theorem C01_refuse_level : forall limit key, limit < key -> norm_level limit key = None.
+Proof. exact norm_level_above_limit. Qed.
+Print Assumptions C01_refuse_level.
+
+(* Non-vacuity: a two-file level with three boxes of different shapes stored
+   out of order satisfies the hypotheses, and a read goes through. *)
+Definition ex_data (n : nat) (c : ascii) : bytes := repeat c n.
+Definition ex_level : level :=
+  {| lv_fabs :=
+       [ {| fab_lo := [0; 0]; fab_hi := [1; 0]; fab_nc := 2; fab_data := ex_data 16 "a"%char ++ ex_data 16 "b"%char |};
+         {| fab_lo := [2; 0]; fab_hi := [2; 1]; fab_nc := 2; fab_data := ex_data 16 "c"%char ++ ex_data 16 "d"%char |};
+         {| fab_lo := [0; 1]; fab_hi := [0; 1]; fab_nc := 2; fab_data := ex_data 8 "e"%char ++ ex_data 8 "f"%char |} ];
+     lv_files := [ (bs "Cell_D_00001", [2; 0]%nat); (bs "Cell_D_00000", [1]%nat) ] |}.
+
+Example C01_nonvacuous :
+  wf_level ex_level = true /\
+  exists cells, lv_cells ex_level = Some cells /\
+    stream_getitem (lv_disk ex_level) cells (FInt 1) (BList [2; 0]) =
+      Some [ {| a_shape := [1; 1]; a_data := ex_data 8 "f"%char |};
+             {| a_shape := [2; 1]; a_data := ex_data 16 "b"%char |} ].
+Proof. split; [vm_compute; reflexivity|]. eexists. split; vm_compute; reflexivity. Qed.
